@@ -202,6 +202,50 @@ func checkC25(c *Ctx, r *Report) {
 					okc = entry && back
 				}
 			}
+			if !okc {
+				// counter-free form: the size of the sample itself is the counter — the
+				// insertion is on the len(sample) != n (or < n) side of a test of the
+				// map that is made here, inserted into and returned
+				var made ssa.Value
+				instrsOf(sf, func(in2 ssa.Instruction) {
+					if mk, isMk := in2.(*ssa.MakeMap); isMk && len(ci.Common().Args) > 0 && mentions(ci.Common().Args[0], func(v ssa.Value) bool { return v == ssa.Value(mk) }, 3) {
+						made = mk
+					}
+				})
+				if made != nil {
+					okc = guardedBy(in, func(cond ssa.Value, val bool) int {
+						b, isB := cond.(*ssa.BinOp)
+						if !isB {
+							return 0
+						}
+						x, y, op := b.X, b.Y, b.Op
+						if y != ssa.Value(nparam) && x == ssa.Value(nparam) {
+							x, y = y, x
+							switch op {
+							case token.LSS:
+								op = token.GTR
+							case token.GTR:
+								op = token.LSS
+							case token.LEQ:
+								op = token.GEQ
+							case token.GEQ:
+								op = token.LEQ
+							}
+						}
+						lc, isL := x.(*ssa.Call)
+						if !isL || y != ssa.Value(nparam) || calleeName(lc.Common()) != "builtin.len" || !mentions(lc.Call.Args[0], func(v ssa.Value) bool { return v == made }, 3) {
+							return 0
+						}
+						switch op {
+						case token.EQL, token.GEQ: // len == n, len >= n: full on the true side
+							return tern(val, -1, 1)
+						case token.NEQ, token.LSS: // len != n, len < n: room on the true side
+							return tern(val, 1, -1)
+						}
+						return 0
+					})
+				}
+			}
 			r.Check(okc, r4, sf, "insertion consumes the budget", in, "on the remaining!=0 side, counter decremented", "an element is inserted into the sample without consuming one unit of the n-element budget (the sample can grow beyond n)")
 		})
 	}
@@ -266,6 +310,26 @@ func checkC25(c *Ctx, r *Report) {
 					}
 					srcs = append(srcs, sampleSrc{wc.Caller, wc.Instr, sv, k, k >= 1 && k <= 3 && sv != nil})
 				}
+				continue
+			}
+			if idx >= 0 && ridx < 0 && len(callers) > 0 && fn.Parent() == nil && (fn.Object() == nil || !fn.Object().Exported()) {
+				// a shared helper that samples and contacts the hosts itself: every
+				// caller passes a constant count; the helper is judged for the largest
+				kmax, all := int64(-1), true
+				for _, wc := range callers {
+					if c.isFixture(wc.Caller) {
+						continue
+					}
+					k := constK(wc.Instr.Common().Args[idx])
+					srcs = append(srcs, sampleSrc{wc.Caller, wc.Instr, nil, k, k >= 1 && k <= 3})
+					if k < 1 || k > 3 {
+						all = false
+					}
+					if k > kmax {
+						kmax = k
+					}
+				}
+				srcs = append(srcs, sampleSrc{fn, cs.Instr, cs.Instr.Value(), kmax, all && kmax >= 1})
 				continue
 			}
 		}
